@@ -18,7 +18,7 @@ import (
 // a goroutine behind, never panic in a goroutine.
 
 var parNames = []string{"ParOr", "ParAnd", "ParHeapOr", "roaring64.ParOr"}
-var workerPool = []int{0, 1, 2, 3, 4, 5, 9}
+var workerPool = []int{0, 1, 2, 3, 4, 5, 9, 1, 2, 3, 16, 33, 70}
 
 func init() {
 	reg(&opDef{name: "parcmp", tag: "C12", selfSched: true,
